@@ -191,6 +191,13 @@ class Renderer:
 WRAPPERS = ["plain", "self", "closure", "defaults", "generator"]
 
 
+def prog_hash(prog):
+    import hashlib
+    import json
+
+    return int(hashlib.sha1(json.dumps(prog, sort_keys=True).encode()).hexdigest()[:6], 16)
+
+
 def render(prog, wrapper):
     """Returns (source, offset): module-level source defining m_top / m_next
     (or a factory) for the given wrapper."""
@@ -209,13 +216,20 @@ def render(prog, wrapper):
         offset = 7
     ind = "    " if wrapper == "closure" else ""
     L = []
+    lit = None
     if wrapper == "closure":
         L.append("def make(c_):")
+        # a multi-line string literal in an indented definition: its text belongs to the program
+        # (continuation line indented deeper than the def, or not at all)
+        lit = "ab\n" + (" " * 12 if prog_hash(prog) % 2 else "") + "cd"
+        tail = f" + c_ + (len(ML_) - {len(lit)})"
     L.append(f"{ind}def m_top({slf}x: int{extra_pos}, *, k: int = 0{extra_kw}):")
     if wrapper != "generator":
         L.append(f"{ind}    if DEPTH[0]:")
         L.append(f"{ind}        LOG.append(f'R{{x}}k{{k}}')")
         L.append(f"{ind}        return x + 10 + 3 * k")
+    if lit is not None:
+        L.append(f'{ind}    ML_ = """' + lit + '"""')
     L.append(f"{ind}    DEPTH[0] += 1")
     L.append(f"{ind}    try:")
     for p in R.prelude:
